@@ -7,7 +7,8 @@ zero mode) are z3 reals; exp is an uninterpreted function with its monotonicity 
 s >= 0, s^2 = x.  The field is affine in the harmonic excitations xi, so it is compared / analysed column by column
 (xi = 0 and xi = e_j):
 
-agree:     for the same latents the two implementations return the same offset and the same response to every excitation
+agree:     for the same latents the two implementations (non-parametric power parametrisation; Matern) return the same offset
+           and the same response to every excitation
            (relative 1e-9: the two code bases bake differently rounded float constants -- log k, volumes -- into the
            arguments of exp; applications whose arguments agree up to 1e-9 in every coefficient are identified).
 variance:  for fixed hyperparameters (= for ALL values of their latents) the expected spatial variance of a realisation about
@@ -55,9 +56,9 @@ def _re_model(spaces, flex, asp, kind="power"):
     jcfm = J.CorrelatedFieldMaker("")
     jcfm.set_amplitude_total_offset(offset_mean=OFFSET[0], offset_std=OFFSET[1])
     for i, (shape, dist) in enumerate(spaces):
-        if flex == "matern":
-            jcfm.add_fluctuations_matern(tuple(shape), distances=tuple(dist), **MATERN, non_parametric_kind="amplitude", renormalize_amplitude=False,
-                                         prefix=f"s{i}" if len(spaces) > 1 else "")
+        if flex in ("matern", "matern_renorm"):
+            jcfm.add_fluctuations_matern(tuple(shape), distances=tuple(dist), **MATERN, non_parametric_kind="amplitude" if flex == "matern" else kind,
+                                         renormalize_amplitude=(flex == "matern_renorm"), prefix=f"s{i}" if len(spaces) > 1 else "")
             continue
         jcfm.add_fluctuations(tuple(shape), distances=tuple(dist), **HYPER, flexibility=FLEX if flex else None,
                               asperity=ASP if asp else None, non_parametric_kind=kind, prefix=f"s{i}" if len(spaces) > 1 else "")
@@ -207,7 +208,8 @@ def h_variance_re(B, spaces, flex, asp, kind):
         c = out - off
         m = sum(list(c), 0) / len(c)
         var = var + sum(((x - m) * (x - m) for x in c), 0) / len(c)
-    flus = [np.asarray(jcall(B, lambda d, a=a: a.fluctuations(d), lat), dtype=dt).reshape(-1)[0] for a in jcfm._fluctuations]
+    flus = [np.asarray(jcall(B, lambda d, a=a: (a.scale if flex == "matern_renorm" else a.fluctuations)(d), lat), dtype=dt).reshape(-1)[0]
+            for a in jcfm._fluctuations]
     if len(flus) == 1:
         pred = flus[0] * flus[0]
     else:
@@ -223,6 +225,14 @@ def scenarios(tier, seed):
     def one(shape, dist):
         return [(tuple(shape), tuple(dist))]
     if tier == "probe":
+        return [("variance_re", {"spaces": one((4,), (0.5,)), "flex": "matern_renorm", "asp": False, "kind": "power"}),
+                ("variance_re", {"spaces": one((4,), (0.5,)), "flex": "matern_renorm", "asp": False, "kind": "amplitude"}),
+                ("variance_re", {"spaces": one((2, 4), (0.5, 0.3)), "flex": "matern_renorm", "asp": False, "kind": "amplitude"})]
+        return [("agree", {"spaces": one((2,), (0.5,)), "flex": "matern", "asp": False}),
+                ("agree", {"spaces": one((6,), (0.3,)), "flex": "matern", "asp": False}),
+                ("agree", {"spaces": one((3, 3), (5., 5.)), "flex": "matern", "asp": False}),
+                ("agree", {"spaces": one((2, 4), (0.5, 0.3)), "flex": "matern", "asp": False}),
+                ("agree", {"spaces": [((4,), (0.5,)), ((4,), (2.,))], "flex": "matern", "asp": False})]
         return [("variance_re", {"spaces": one((4,), (0.5,)), "flex": True, "asp": True, "kind": "power"}),
                 ("variance_re", {"spaces": one((4,), (0.5,)), "flex": True, "asp": True, "kind": "amplitude"}),
                 ("variance_re", {"spaces": [((4,), (0.5,)), ((4,), (2.,))], "flex": True, "asp": False, "kind": "amplitude"})]
@@ -245,6 +255,10 @@ def scenarios(tier, seed):
              ("variance_re", {"spaces": one((4,), (0.5,)), "flex": True, "asp": True, "kind": "amplitude"}),
              ("variance_re", {"spaces": one((6,), (0.3,)), "flex": True, "asp": False, "kind": "amplitude"}),
              ("variance_re", {"spaces": [((4,), (0.5,)), ((4,), (2.,))], "flex": True, "asp": False, "kind": "amplitude"}),
+             ("agree", {"spaces": one((4,), (0.5,)), "flex": "matern", "asp": False}),
+             ("agree", {"spaces": one((2, 4), (0.5, 0.3)), "flex": "matern", "asp": False}),
+             ("variance_re", {"spaces": one((4,), (0.5,)), "flex": "matern_renorm", "asp": False, "kind": "power"}),
+             ("variance_re", {"spaces": one((2, 4), (0.5, 0.3)), "flex": "matern_renorm", "asp": False, "kind": "amplitude"}),
              ("variance", {"spaces": one((4,), (0.5,)), "flex": "matern", "asp": False})]       # known finding
     thorough = [("agree", {"spaces": one((6,), (1.,)), "flex": True, "asp": True}),
                 ("agree", {"spaces": one((3, 3), (0.1, 0.1)), "flex": False, "asp": False}),     # with flexibility / asperity: not finished after 40 min
@@ -255,6 +269,11 @@ def scenarios(tier, seed):
                 ("variance", {"spaces": one((4, 6), (1., 0.5)), "flex": True, "asp": True}),
                 ("variance_re", {"spaces": one((2, 4), (0.5, 0.3)), "flex": True, "asp": True, "kind": "amplitude"}),
                 ("variance_re", {"spaces": one((4, 4), (1., 2.)), "flex": True, "asp": False, "kind": "power"}),
+                ("agree", {"spaces": one((2,), (0.5,)), "flex": "matern", "asp": False}),
+                ("agree", {"spaces": one((6,), (0.3,)), "flex": "matern", "asp": False}),
+                ("agree", {"spaces": one((3, 3), (5., 5.)), "flex": "matern", "asp": False}),
+                ("agree", {"spaces": [((4,), (0.5,)), ((4,), (2.,))], "flex": "matern", "asp": False}),
+                ("variance_re", {"spaces": one((4,), (0.5,)), "flex": "matern_renorm", "asp": False, "kind": "amplitude"}),
                 ("variance", {"spaces": one((8,), (1.,)), "flex": "matern", "asp": False})]       # known finding
     return quick if tier == "quick" else quick + thorough
 
@@ -279,12 +298,11 @@ META = {
                           "add_fluctuations,set_amplitude_total_offset,finalize,NonParametricAmplitude.__call__,hartley,get_fourier_mode_distributor,"
                           "_remove_slope}"],
     "bounds": {"grids": "1-D 4, 6, 8 pixels; 2-D 2x4, 3x3, 4x4 (4x6 thorough); products of two spaces (4 x 4 quick; 4 x 2x4, 6 x 4 thorough) and of three spaces (4 x 4 x 4, variance clause); concrete distances 0.1 .. 3",
-               "amplitude": "non-parametric with / without flexibility and asperity: power parametrisation (agreement, classic and JAX variance) and amplitude parametrisation (JAX variance); classic Matern amplitude for the variance clause", "prior means / widths of the hyperparameters": "one concrete set (the latents are symbolic, so every hyperparameter VALUE is covered)"},
+               "amplitude": "non-parametric with / without flexibility and asperity: power parametrisation (agreement, classic and JAX variance) and amplitude parametrisation (JAX variance); Matern amplitude: agreement (classic vs JAX with renormalize_amplitude=False), JAX variance with renormalize_amplitude=True in both parametrisations, classic variance (known finding)", "prior means / widths of the hyperparameters": "one concrete set (the latents are symbolic, so every hyperparameter VALUE is covered)"},
     "stubs": ["ducc0 Hartley / FFT kernels = explicit DFT sums with exact twiddle factors (validated against the real kernels in every run, C09)",
-              "exp: uninterpreted, > 0, monotone, exp(0) = 1, exp(x) >= 1 + x; applications whose arguments agree in every coefficient up to 1e-9 are identified "
-              "(differently rounded float constants of the two code bases)"],
-    "outside": ["agreement of the two implementations for Matern amplitudes (log / power of symbolic arguments nested in exp: "
-                "the solver's models do not reproduce, the encoding is too weak; the classic model has no amplitude parametrisation to compare with); the variance clause IS checked for the classic Matern amplitude (known finding)", "spherical (HEALPix) spaces", "total_N > 0 (dofdex)",
+              "exp: uninterpreted, > 0, monotone, exp(0) = 1, exp(x) >= 1 + x; applications (and square roots) whose arguments agree as rational functions up to 1e-9 of their largest coefficient are identified "
+              "(differently rounded float constants of the two code bases); exp(a + r) is rewritten to exp(a) exp(r) when exp(a) already exists (the two code bases group the exponent differently); log(exp(t)) = t"],
+    "outside": ["agreement for the amplitude parametrisation of the non-parametric model (the classic model has none); the variance clause IS checked for the classic Matern amplitude (known finding)", "spherical (HEALPix) spaces", "total_N > 0 (dofdex)",
                 "correlated_fields_simple", "symbolic distances / prior parameters", "grids whose twiddle factors are not in Q(sqrt2, sqrt3) (5, 7 pixels)"],
     "assumptions": [],
 }
